@@ -1463,8 +1463,13 @@ impl<'a, 'b, W: Write> Serializer for &'a mut YamlSerializer<'b, W> {
                 && !self.pending_space_after_colon;
             // If we are a mapping value (space after colon was pending), we will handle
             // the newline later in SeqSer::serialize_element to keep empty sequences inline.
+            let had_anchor = self.pending_anchor_id.is_some();
             self.write_anchor_for_complex_node()?;
-            if inline_first {
+            if inline_first && had_anchor {
+                // `- &a1` has ended the dash's line: the elements start on lines of their own,
+                // one level under that dash (the depth computed below), not inline after it.
+                self.pending_inline_map = false;
+            } else if inline_first {
                 // Keep staged inline (pending_inline_map) so the child can inline its first dash.
                 // Ensure we stay mid-line so the child can emit its first dash inline.
                 self.at_line_start = false;
